@@ -1020,6 +1020,16 @@ def documented_terms(spec, terms):
     """The levels as DOCUMENTED: DateOfBirthComparison's date-difference levels parse with the comparison's datetime_format."""
     if spec and spec["creator"] == "DateOfBirthComparison" and spec["kw"].get("datetime_format"):
         return [dict(t, fmt=spec["kw"]["datetime_format"]) if t["k"] == "absoluteDateDifference" else t for t in terms]
+    if spec and spec["creator"] == "PostcodeComparison" and spec["kw"].get("invalid_postcodes_as_null") and isinstance(spec["kw"].get("col_name"), str):
+        # documented: "postcodes that do not adhere to valid_postcode_regex will be included in the null level" - whichever other arguments
+        # (lat_col / long_col / km_thresholds) are given.  The null level is written down from the documentation, not read off the code.
+        from splink.internals import comparison_level_library as cll
+        from splink.internals.comparison_library import PostcodeComparison as P
+
+        from harness.translate import tlevels as _tl
+
+        doc_null = _tl.level_term(cll.NullLevel(spec["kw"]["col_name"], valid_string_pattern=spec["kw"].get("valid_postcode_regex", P.VALID_POSTCODE_REGEX)))
+        return [doc_null if t["k"] == "null" else t for t in terms]
     return terms
 
 
